@@ -149,3 +149,12 @@ Check path_jump_with_reset_abandons_all_frames :
     (exists t e, cs_threads (ss_cs (w_state w')) = [t] /\ th_cs t = [e])
     /\ ss_vars (w_state w') = ss_vars (w_state w).
 Print Assumptions path_jump_with_reset_abandons_all_frames.
+
+(* T-gen tie of registrations_survive_*: in the Rust sources the observers, external bindings, error handler and
+   fallbacks flag are written by the registration calls only — regenerated from the sources on every run *)
+From Ink.Gen Require Import EngineGen.
+From Ink.Shell Require Import StructureTie.
+Theorem registrations_are_written_by_registration_calls_only : registrations_written_by_registration_calls = true.
+Proof. exact StructureTie.now_registrations_written_by_registration_calls. Qed.
+Check registrations_are_written_by_registration_calls_only : registrations_written_by_registration_calls = true.
+Print Assumptions registrations_are_written_by_registration_calls_only.
